@@ -1433,6 +1433,19 @@ def twin_oracle(case, res, out, small):
                 ' '.join(case['sel'] or []), res['rc'], tw['skip']), shape='unknown-target-accepted', case=small))
         return viol
     out.count('twin:compared rc=%s/%s' % (res['rc'], tw['rc']))
+    # a word of the selection that is the target of a CREATED task whose creator is no candidate for it by its own declaration
+    # (no target_regex / not matching, no --auto-delayed-regex): the static twin knows the target, the delayed run may only ask
+    # the candidates and then rightly reports "nobody produces it" (C15: a target nobody produces is reported as an error) --
+    # the two legitimately differ (false alarm of this oracle at thorough seed 2: f_d0_0 produced by a creator without regex,
+    # matched by ANOTHER creator's regex)
+    init_names = set(res['initial'])
+    for w in (case['sel'] or []):
+        if w in init_names or w.split(':', 1)[0] in init_names:
+            continue
+        producers = [c for c in case['creators'] for it in c['items'] if w in it.get('targets', [])]
+        if producers and not any(declared_candidate(c, w, case['auto']) for c in producers):
+            out.count('twin:not compared (producer of a command-line target is no candidate by its declaration)')
+            return viol
     if all_calm(case) and res['rc'] != tw['rc'] and not any(e[0] == 40 for e in res['events']):
         # ([40]: the selection itself was rejected -- a target of a created task is unknown without target_regex / --auto-delayed-regex)
         viol.append(dict(what='failure-free behaviours: exit status %s, the identically defined static task set gives %s' % (res['rc'], tw['rc']),
